@@ -1,7 +1,7 @@
 (* C14 — property theorems only (statements + [exact]); proofs in Proofs.v / Harness.v. *)
 From Coq Require Import List NArith ZArith Bool Znumtheory Lia.
 From V.Base Require Import Hex BigEndian.
-From V.C14 Require Import Model Bytes Proofs Harness.
+From V.C14 Require Import Model Bytes Proofs Text Harness.
 Import ListNotations.
 Local Open Scope Z_scope.
 
@@ -117,6 +117,21 @@ Proof. exact hash_to_g1_valid. Qed.
 Theorem C14_neg_on_curve : forall x y, on_curve x y = true -> on_curve x (fsub 0 y) = true.
 Proof. exact neg_on_curve. Qed.
 Print Assumptions C14_hash_on_curve.
+
+(* hex text entry points (SetHexString): an accepted text is "0x" followed by exactly 128 (256) hex digits
+   spelling the serialization of the returned value: no trailing digit, junk, sign, space or separator *)
+Theorem C14_sig_hex_text_exact : forall s v, sig_set_hex s = (v, false) ->
+  exists r, s = with_prefix r /\ String.length r = 128%nat /\ all_hex r = true /\ unhex r = sig_serialize v /\ g1_wf v.
+Proof. exact sig_set_hex_exact. Qed.
+Theorem C14_pk_hex_text_exact : forall s v, pk_set_hex s = Ok v -> v <> G2Inf ->
+  exists r, s = with_prefix r /\ String.length r = 256%nat /\ all_hex r = true /\ unhex r = g2_marshal v /\ g2_wf v.
+Proof. exact pk_set_hex_exact. Qed.
+Print Assumptions C14_pk_hex_text_exact.
+(* before fix 9e75567 a valid hex encoding followed by one more digit was read as the valid value *)
+Theorem C14_hex_trailing_refuted :
+  exists (s : String.string) (v : g1),
+    sig_set_hex_old s = (v, false) /\ g1_wf v /\ s <> with_prefix (hex (sig_serialize v)) /\ sig_set_hex s = (G1Nil, true).
+Proof. exact hex_trailing_refuted. Qed.
 
 (* ---- the code before the fixes: the property was false (witnesses re-checked by the kernel) ---- *)
 Theorem C14_overlong_refuted :
